@@ -10,6 +10,8 @@ the vote filter and the reachable states; finalisation.
 import Gossamer.Lib.C21Unique
 import Gossamer.Lib.C21Filter
 import Gossamer.Lib.C21Final
+import Gossamer.Lib.C21Account
+import Gossamer.Lib.C21Bfc
 namespace Gossamer.C21
 
 /-- `total > State.threshold()` is "more than two thirds of the `n` authorities" -/
@@ -427,5 +429,97 @@ theorem C21_finalise_sound {c : Cfg} (hw : c.t.WF) {s : St} (hgv : GoodVotes c s
         · rcases hcase with ⟨_, hb⟩ | ⟨_, hgood⟩
           · rw [hb]; exact c.t.mem_chain_self _
           · exact hgood.anc
+
+/-! ### reachable states: accounting, the precommit target over all histories, closed forms of the candidate -/
+
+/-- **Accounting of all reachable states**: when the Service is one of the `n` authorities, the authorities with a
+stored vote of a stage and the equivocators of that stage are distinct authorities, hence at most `n` together
+(the hypothesis `hacc` of the GHOST theorems). -/
+theorem C21_reachable_accounted (c : Cfg) (hme : c.me < c.n) (ops : List Op) :
+    (run c ops).pv.length + (run c ops).pve.length ≤ c.n ∧
+    (run c ops).pc.length + (run c ops).pce.length ≤ c.n :=
+  ⟨(run_accounted c hme ops).1.length_le, (run_accounted c hme ops).2.length_le⟩
+
+/-- **The precommit target over all histories** (partial, as `C21_precommit_target_partial`): after ANY sequence of
+vote messages and own votes (messages carrying the numbers of their blocks), for ANY iteration orders, if at most one
+third of the authorities equivocated in their prevotes and `G` is the GRANDPA-GHOST of the stored prevotes, then –
+unless a directly voted block with a supermajority hides `G` – the Service precommits to `G` capped at the pending
+authority change. -/
+theorem C21_precommit_target_reachable_partial (c : Cfg) (hw : c.t.WF) (hme : c.me < c.n) (ops : List Op)
+    (hop : ∀ op ∈ ops, OpOK c op) (hnum : c.strict = true ∨ ∀ op ∈ ops, NumOK c op) {o : Ord} (ho : o.Valid)
+    (he : 3 * (run c ops).pve.length ≤ c.n) {G : Nat} (hgh : IsGhost c (run c ops) G)
+    (hns : (∃ kv ∈ (run c ops).pv, kv.2.blk = G) ∨
+      (∀ kv ∈ (run c ops).pv, pvTotal c (run c ops) kv.2.blk ≤ thr c.n)) :
+    determinePreCommit c o (run c ops) = capVote c (c.voteOf G) :=
+  (C21_precommit_target_partial hw (C21_reachable_good c ops hop hnum).1 ho
+    (C21_reachable_accounted c hme ops).1 he hgh hns).2
+
+/-- the hypotheses of the theorem above are satisfiable: four authorities, three prevote for block 2 and one for its
+sibling; the GHOST is block 2 and the precommit goes to it -/
+example :
+    let c : Cfg := ⟨4, 0, 0, ⟨[0, 0, 1, 1]⟩, 0, .none, 1, 0, false⟩
+    let ops : List Op := [.own 0 2, .msg ⟨0, 1, 2, 2, true, 1, 0⟩, .msg ⟨0, 2, 2, 2, true, 1, 0⟩,
+      .msg ⟨0, 3, 3, 2, true, 1, 0⟩]
+    (run c ops).pv = [(0, ⟨2, 2⟩), (1, ⟨2, 2⟩), (2, ⟨2, 2⟩), (3, ⟨3, 2⟩)] ∧ pvTotal c (run c ops) 2 = 3 ∧
+    (determinePreCommit c (fun _ => Perms.id) (run c ops)).toOption = some ⟨2, 2⟩ := by
+  decide
+
+/-- **`getBestFinalCandidate` in closed form, for every iteration order**: with distinct precommitting authorities
+and at most one third of them equivocating, the candidate is `bfcOf` of the pre-voted block – the deepest block on
+the chain of the pre-voted block that is (an ancestor of) a candidate of the precommits, or the pre-voted block itself
+when no block has a precommit supermajority selected. -/
+theorem C21_bfc_closed_form {c : Cfg} (hw : c.t.WF) {s : St} (hgv : GoodVotes c s.pv) (hgc : GoodVotes c s.pc)
+    {o : Ord} (ho : o.Valid) (hacc : s.pc.length + s.pce.length ≤ c.n) (he : 3 * s.pce.length ≤ c.n)
+    {b : Vote} (h : getBestFinalCandidate c o s = .ok b) :
+    ∃ p ∈ pvbSet c s, b = c.voteOf (bfcOf c s p) := by
+  obtain ⟨p, _, hp, hb⟩ := gbfc_closed hw hgv hgc ho hacc he h
+  exact ⟨p.blk, hp, hb⟩
+
+/-- **`attemptToFinalize` in closed form, for every iteration order** (same hypotheses): the decision is taken on
+`bfcOf p1` and the block finalised is `bfcOf p2` for two possible pre-voted blocks `p1`, `p2` (one block when the
+closed form leaves no tie). -/
+theorem C21_finalise_closed_form {c : Cfg} (hw : c.t.WF) {s : St} (hgv : GoodVotes c s.pv)
+    (hgc : GoodVotes c s.pc) {o : Ord} (ho : o.Valid) (hacc : s.pc.length + s.pce.length ≤ c.n)
+    (he : 3 * s.pce.length ≤ c.n) :
+    (∀ X, attemptToFinalize c o s = .ok (.yes X) →
+      ∃ p1 ∈ pvbSet c s, ∃ p2 ∈ pvbSet c s, thr c.n < pcTotal c s (bfcOf c s p1) ∧ X = bfcOf c s p2) ∧
+    (attemptToFinalize c o s = .ok .no →
+      ∃ p1 ∈ pvbSet c s, pcTotal c s (bfcOf c s p1) ≤ thr c.n) := by
+  unfold attemptToFinalize
+  cases h1 : getBestFinalCandidate c (o.sub 0) s with
+  | error e => simp [bind, Except.bind]
+  | ok bfc1 =>
+    obtain ⟨p1, hp1, hb1⟩ := C21_bfc_closed_form hw hgv hgc (ho.sub 0) hacc he h1
+    simp only [bind, Except.bind]
+    by_cases hbef : bfc1.num < c.headNum
+    · simp [hbef]
+    simp only [hbef, if_false]
+    by_cases hcount : pcTotal c s bfc1.blk ≤ thr c.n
+    · simp only [hcount, if_true]
+      refine ⟨fun X hX => (by cases hX), fun _ => ⟨p1, hp1, ?_⟩⟩
+      rw [hb1] at hcount
+      exact hcount
+    simp only [hcount, if_false]
+    cases h2 : getBestFinalCandidate c (o.sub 1) s with
+    | error e => simp
+    | ok bfc2 =>
+      obtain ⟨p2, hp2, hb2⟩ := C21_bfc_closed_form hw hgv hgc (ho.sub 1) hacc he h2
+      simp only
+      cases h3 : getPreVotedBlock c (o.sub 2) s with
+      | error e => simp
+      | ok pv3 =>
+        simp only
+        by_cases hj : (justErr c bfc2.blk s.pv || justErr c bfc2.blk s.pc) = true
+        · simp [hj]
+        simp only [hj, Bool.false_eq_true, if_false]
+        by_cases hsz : c.t.size ≤ bfc2.blk
+        · simp [hsz]
+        simp only [hsz, if_false]
+        refine ⟨fun X hX => ?_, fun hno => (by cases hno)⟩
+        cases hX
+        refine ⟨p1, hp1, p2, hp2, ?_, by rw [hb2]; rfl⟩
+        rw [hb1] at hcount
+        simp only [Cfg.voteOf] at hcount
+        omega
 
 end Gossamer.C21
